@@ -296,7 +296,8 @@ pub fn b_state(op: u8) {
     let cols = nd::usize_();
     let rows = nd::usize_();
     let idx = nd::usize_();
-    nd::assume(cols <= 8 && rows <= 8 && (cols == 0) == (rows == 0));
+    nd::assume((cols == 0) == (rows == 0));
+    nd::assume(op < 2 || (cols <= 8 && rows <= 8));
     let mk = || if cols == 0 { TooDee::<u8>::default() } else { TooDee::from_vec(cols, rows, grid(cols, rows)) };
     if op == 4 {
         // Clone::clone_from(&mut self, source) with a Clone that crashes at its k-th call, over a handful of source shapes
@@ -328,6 +329,25 @@ pub fn b_state(op: u8) {
             }
         }));
         assert!(inv_u8(&t), "ORACLE: shape invariant broken after a leaked drain / rejected remove");
+        end_reached!();
+        return;
+    }
+    if cols > 8 || rows > 8 {
+        // astronomically large array: only constructible with zero-sized elements; the inserted line is
+        // the matching one (its fill loop must be short enough to run)
+        nd::assume(cols.checked_mul(rows).is_some() && (cols == 0) == (rows == 0));
+        let line = if op == 0 { cols } else { rows };
+        nd::assume(line <= 4096);
+        let mut t: TooDee<()> = TooDee::from_vec(cols, rows, vec![(); cols * rows]);
+        let _ = std::panic::catch_unwind(std::panic::AssertUnwindSafe(|| {
+            if op == 0 {
+                t.insert_row(idx, vec![(); line])
+            } else {
+                t.insert_col(idx, vec![(); line])
+            }
+        }));
+        let (c, r) = (t.num_cols(), t.num_rows());
+        assert!(c.checked_mul(r) == Some(t.data().len()) && (c == 0) == (r == 0), "ORACLE: shape invariant broken after insert into an astronomically large array of zero-sized elements");
         end_reached!();
         return;
     }
